@@ -307,8 +307,18 @@ def discover_ext():
         lines = read(lib).splitlines()
         pending = None
         hs = []
+        probes = []
         for ln in lines:
             t = ln.strip()
+            if t.startswith("//@probe"):
+                kv = parse_kv(t[len("//@probe"):])
+                name = kv.get("name", "")
+                props = [x.strip() for x in kv.get("prop", "").split(",") if x.strip()]
+                own = "C" + name[1:3]
+                if own not in props:
+                    props.insert(0, own)
+                probes.append({"name": name, "cfg": kv.get("cfg"), "props": props, "meta": kv, "tier": kv.get("tier", "quick")})
+                continue
             if t.startswith("//@ob"):
                 pending = parse_kv(t[len("//@ob"):])
                 continue
@@ -321,7 +331,7 @@ def discover_ext():
                     props.insert(0, own)
                 hs.append({"name": name, "props": props, "meta": pending, "tier": pending.get("tier", "quick")})
                 pending = None
-        out.append({"crate": c, "dir": os.path.join(EXT_DIR, c), "harnesses": hs})
+        out.append({"crate": c, "dir": os.path.join(EXT_DIR, c), "harnesses": hs, "probes": probes})
     return out
 
 
@@ -360,6 +370,26 @@ def prepare_ext_crate(ext):
             write(ct, read(ct).replace("RRTK_PATH", repo_copy))
     write(os.path.join(cdir, ".cargo", "config.toml"), "[net]\noffline = true\n")
     return cdir
+
+
+def run_ext_probes(ext, probes):
+    """Must-not-compile obligations of a downstream crate: the crate must build without any probe (else undecided) and
+    `cargo check` with `--cfg <probe>` must fail for every probe.  Returns {name: {"rejected": bool, "diagnostics": str}}."""
+    cdir = prepare_ext_crate(ext)
+    rc0, out0, _ = run(["cargo", "check", "--offline"], cwd=cdir, timeout=1800, extra_env={"RUSTFLAGS": ""})
+    if rc0 != 0:
+        raise Undecided("ext crate %s does not build without probes: %s" % (ext["crate"], _tail(out0, 1500)))
+    res = {}
+    for pr in probes:
+        rc, out, _ = run(["cargo", "check", "--offline"], cwd=cdir, timeout=1800, extra_env={"RUSTFLAGS": "--cfg %s" % pr["cfg"]})
+        errs = re.findall(r"(?m)^error(?:\[E\d+\])?: [^\n]*", out)
+        if rc == 0 and "Finished" not in out:
+            raise Undecided("ext crate %s probe %s: cargo check gave no verdict" % (ext["crate"], pr["name"]))
+        res[pr["name"]] = {"rejected": rc != 0 and bool(errs), "errors": errs[:3], "cmd": "RUSTFLAGS='--cfg %s' cargo check --offline" % pr["cfg"],
+                           "output_tail": _tail(out, 1200)}
+        if rc != 0 and not errs:
+            raise Undecided("ext crate %s probe %s: build failed without a compiler error: %s" % (ext["crate"], pr["name"], _tail(out, 800)))
+    return res
 
 
 def run_ext_crate(ext, names, jobs, timeout_s):
